@@ -40,6 +40,8 @@ N27 list += [v]             X += [v]  (X a local bound to a list display / compr
 N28 unpack via temporaries  a, b = E; T1 = a; T2 = b  (a, b bound nowhere else, read only there)  ->  T1, T2 = E
                             (N16 also splits general target patterns position by position)
 N30 [*E]                    ->  list(E)
+N32 dict(k=v, ..)           ->  {"k": v, ..}
+N31 D.update(k=v)           as a statement, D the **kwargs parameter or a local dict display  ->  D["k"] = v
 N29 zip(range(len(X)), X)   as the iterable of a loop / comprehension that does not resize or rebind X  ->  enumerate(X)
 """
 from __future__ import annotations
@@ -230,6 +232,10 @@ class _Expr(ast.NodeTransformer):
             if len(names) == len(set(names)):
                 n.keywords = kws
                 ast.fix_missing_locations(n)
+        # N32 dict(k=v, ..) -> {"k": v, ..}
+        if isinstance(f, ast.Name) and f.id == "dict" and not n.args and n.keywords and all(k.arg is not None for k in n.keywords) \
+                and "dict" not in SHADOWED_BUILTINS:
+            return _loc(ast.Dict(keys=[ast.Constant(value=k.arg) for k in n.keywords], values=[k.value for k in n.keywords]), n)
         # N5
         if isinstance(f, ast.Name) and f.id == "range" and len(n.args) == 1 and not n.keywords:
             return _loc(ast.Call(func=f, args=[ast.Constant(value=0), n.args[0]], keywords=[]), n)
@@ -1681,6 +1687,41 @@ def _zip_range_to_enumerate(t: ast.Module) -> None:
                 n.generators[0].iter = new
 
 
+def _dict_update_to_store(t: ast.Module) -> None:
+    """N31: `D.update(k=v)` as a statement, D the function's **kwargs parameter or a local bound to a dict display ->
+    `D["k"] = v` (one keyword, no positional argument)"""
+    for fn in ast.walk(t):
+        if not isinstance(fn, (ast.FunctionDef, ast.AsyncFunctionDef)):
+            continue
+        dicts = set()
+        if fn.args.kwarg is not None:
+            dicts.add(fn.args.kwarg.arg)
+        binds = {}
+        for n in ast.walk(fn):
+            if isinstance(n, ast.Name) and isinstance(n.ctx, ast.Store):
+                binds.setdefault(n.id, []).append(n)
+        for n in ast.walk(fn):
+            if isinstance(n, ast.Assign) and len(n.targets) == 1 and isinstance(n.targets[0], ast.Name) \
+                    and isinstance(n.value, ast.Dict) and len(binds.get(n.targets[0].id, [])) == 1:
+                dicts.add(n.targets[0].id)
+        for name in list(dicts):
+            if name in (fn.args.kwarg.arg if fn.args.kwarg else None,) and binds.get(name):
+                dicts.discard(name)          # the **kwargs name is rebound somewhere
+        for holder in ast.walk(fn):
+            for fld in ("body", "orelse", "finalbody"):
+                seq = getattr(holder, fld, None)
+                if not (isinstance(seq, list) and seq and isinstance(seq[0], ast.stmt)):
+                    continue
+                for i, st in enumerate(seq):
+                    if isinstance(st, ast.Expr) and isinstance(st.value, ast.Call) and isinstance(st.value.func, ast.Attribute) \
+                            and st.value.func.attr == "update" and isinstance(st.value.func.value, ast.Name) \
+                            and st.value.func.value.id in dicts and not st.value.args and len(st.value.keywords) == 1 \
+                            and st.value.keywords[0].arg is not None:
+                        k = st.value.keywords[0]
+                        tgt = ast.Subscript(value=ast.Name(id=st.value.func.value.id, ctx=ast.Load()), slice=ast.Constant(value=k.arg), ctx=ast.Store())
+                        seq[i] = _loc(ast.Assign(targets=[tgt], value=k.value), st)
+
+
 def _drop_local_annotations(t: ast.Module) -> None:
     """N20: inside function bodies `x: T = v` / `self.a: T = v` is `x = v` / `self.a = v` (class-level annotated assignments
     are model fields and are left alone)."""
@@ -1696,17 +1737,18 @@ def normalize_module(tree: ast.Module) -> ast.Module:
     t = copy.deepcopy(tree)
     SHADOWED_BUILTINS.clear()
     for n in ast.walk(t):
-        if isinstance(n, ast.Name) and isinstance(n.ctx, ast.Store) and n.id in ("list", "enumerate", "zip", "range", "len"):
+        if isinstance(n, ast.Name) and isinstance(n.ctx, ast.Store) and n.id in ("list", "enumerate", "zip", "range", "len", "dict"):
             SHADOWED_BUILTINS.add(n.id)
-        elif isinstance(n, (ast.FunctionDef, ast.ClassDef)) and n.name in ("list", "enumerate", "zip", "range", "len"):
+        elif isinstance(n, (ast.FunctionDef, ast.ClassDef)) and n.name in ("list", "enumerate", "zip", "range", "len", "dict"):
             SHADOWED_BUILTINS.add(n.name)
-        elif isinstance(n, ast.arg) and n.arg in ("list", "enumerate", "zip", "range", "len"):
+        elif isinstance(n, ast.arg) and n.arg in ("list", "enumerate", "zip", "range", "len", "dict"):
             SHADOWED_BUILTINS.add(n.arg)
-        elif isinstance(n, ast.alias) and (n.asname or n.name) in ("list", "enumerate", "zip", "range", "len"):
+        elif isinstance(n, ast.alias) and (n.asname or n.name) in ("list", "enumerate", "zip", "range", "len", "dict"):
             SHADOWED_BUILTINS.add(n.asname or n.name)
     _drop_local_annotations(t)
     _list_iadd_to_append(t)
     _zip_range_to_enumerate(t)
+    _dict_update_to_store(t)
     t = _Expr().visit(t)
     if isinstance(t, ast.Module):
         _inline_private_helpers(t)
